@@ -41,6 +41,8 @@ func runSched(t *testing.T, prefix []int, expect []bsched.Point, maxSteps int, b
 		s.RoundRobin = schedRoundRobin
 		SetGate(s.Gate)
 		defer SetGate(nil)
+		connect.VerifChoose = s.Choose
+		defer func() { connect.VerifChoose = chooseFirst }()
 		AlgGate = s.Gate
 		defer func() { AlgGate = nil }()
 		x.Obs = body(s)
@@ -60,6 +62,14 @@ func runSched(t *testing.T, prefix []int, expect []bsched.Point, maxSteps int, b
 	})
 	return x
 }
+
+// chooseFirst is the select policy outside scheduler-driven executions: the
+// first ready case in source order (deterministic; the scheduler-driven
+// explorers enumerate the other choices).  The free-running race pass removes
+// it and keeps Go's own random choice.
+func chooseFirst(string, int) int { return 0 }
+
+func init() { connect.VerifChoose = chooseFirst }
 
 // SetGate installs the scheduler hook in the instrumented library.
 func SetGate(g func(string)) { connect.VerifGate = g }
